@@ -1,63 +1,847 @@
+// c01: runs real distsys.MPCalContexts whose critical-section bodies interpret a scripted list of
+// operations, with fault-injecting wrapper resources bound alongside real resources, and reports
+// for every attempt: commit / abort / crash / panic-in-abort, the values the successful operations
+// returned, and what can be seen of every resource afterwards.
+//
+// stdin : one JSON case per line (see type kase); stdout: one JSON result per line.
 package main
 
 import (
+	"bufio"
 	"bytes"
 	"encoding/gob"
+	"encoding/json"
 	"fmt"
+	"io"
+	"log"
+	"net"
 	"os"
+	"path/filepath"
+	"sort"
+	"strconv"
+	"strings"
+	"time"
 
 	"github.com/DistCompiler/pgo/distsys"
+	"github.com/DistCompiler/pgo/distsys/hashmap"
 	"github.com/DistCompiler/pgo/distsys/resources"
 	"github.com/DistCompiler/pgo/distsys/tla"
+	"github.com/DistCompiler/pgo/distsys/trace"
+	"github.com/DistCompiler/pgo/systems/raftkvs"
 	"github.com/dgraph-io/badger/v3"
 )
 
-func main() {
-	dir, _ := os.MkdirTemp("/var/tmp", "probe")
-	defer os.RemoveAll(dir)
-	db, err := badger.Open(badger.DefaultOptions(dir).WithLogger(nil))
+// ---------------------------------------------------------------- values <-> JSON
+// null = defaultInitValue, bool, number, string, {"t":[..]} tuple, {"r":[[k,v],..]} record/function
+
+func toTLA(j interface{}) tla.Value {
+	switch x := j.(type) {
+	case nil:
+		return tla.Value{}
+	case bool:
+		return tla.MakeBool(x)
+	case float64:
+		return tla.MakeNumber(int32(x))
+	case string:
+		return tla.MakeString(x)
+	case map[string]interface{}:
+		if t, ok := x["t"]; ok {
+			var elems []tla.Value
+			for _, e := range t.([]interface{}) {
+				elems = append(elems, toTLA(e))
+			}
+			return tla.MakeTuple(elems...)
+		}
+		if r, ok := x["r"]; ok {
+			var fields []tla.RecordField
+			for _, kv := range r.([]interface{}) {
+				p := kv.([]interface{})
+				fields = append(fields, tla.RecordField{Key: toTLA(p[0]), Value: toTLA(p[1])})
+			}
+			return tla.MakeRecord(fields)
+		}
+	}
+	panic(fmt.Sprintf("bad value %v", j))
+}
+
+func fromTLA(v tla.Value) interface{} {
+	v = v.StripVClock()
+	switch {
+	case v.IsBool():
+		return v.AsBool()
+	case v.IsNumber():
+		return v.AsNumber()
+	case v.IsString():
+		return v.AsString()
+	case v.IsTuple():
+		elems := []interface{}{}
+		it := v.AsTuple().Iterator()
+		for !it.Done() {
+			_, e := it.Next()
+			elems = append(elems, fromTLA(e))
+		}
+		return map[string]interface{}{"t": elems}
+	case v.IsFunction():
+		type kv struct {
+			ks string
+			k  interface{}
+			v  interface{}
+		}
+		var kvs []kv
+		it := v.AsFunction().Iterator()
+		for !it.Done() {
+			k, e, _ := it.Next()
+			jk := fromTLA(k)
+			b, _ := json.Marshal(jk)
+			kvs = append(kvs, kv{string(b), jk, fromTLA(e)})
+		}
+		sort.Slice(kvs, func(i, j int) bool { return kvs[i].ks < kvs[j].ks })
+		out := []interface{}{}
+		for _, p := range kvs {
+			out = append(out, []interface{}{p.k, p.v})
+		}
+		return map[string]interface{}{"r": out}
+	default:
+		return nil
+	}
+}
+
+func toTLAs(js []interface{}) []tla.Value {
+	var out []tla.Value
+	for _, j := range js {
+		out = append(out, toTLA(j))
+	}
+	return out
+}
+
+func keyString(j interface{}) string { b, _ := json.Marshal(j); return string(b) }
+
+func tup(xs ...interface{}) interface{} {
+	if xs == nil {
+		xs = []interface{}{}
+	}
+	return map[string]interface{}{"t": xs}
+}
+
+// ---------------------------------------------------------------- case format
+
+type resDesc struct {
+	Name    string          `json:"name"`
+	Kind    string          `json:"kind"`
+	Init    interface{}     `json:"init"`
+	Items   []interface{}   `json:"items"`
+	Files   [][]interface{} `json:"files"`
+	Table   [][]interface{} `json:"table"`
+	Timeout int             `json:"timeout_ms"`
+}
+
+type faultDesc struct {
+	Op   int `json:"op"`
+	Call int `json:"call"`
+}
+
+type attemptDesc struct {
+	Env    [][]interface{} `json:"env"`
+	Ops    [][]interface{} `json:"ops"`
+	Fault  *faultDesc      `json:"fault"`
+	PCFail []string        `json:"pcfail"`
+}
+
+type kase struct {
+	ID       int             `json:"id"`
+	Res      []resDesc       `json:"res"`
+	Attempts []attemptDesc   `json:"attempts"`
+	Snap     [][]interface{} `json:"snap"` // [name, [keys..]]
+}
+
+type attemptResult struct {
+	Out  int           `json:"out"` // 0 commit, 1 abort, 2 crash, 3 panic in abort
+	Tr   []interface{} `json:"tr"`
+	Snap []interface{} `json:"snap"`
+	Err  string        `json:"err,omitempty"`
+}
+
+type result struct {
+	ID       int             `json:"id"`
+	Attempts []attemptResult `json:"attempts"`
+	Err      string          `json:"err,omitempty"`
+}
+
+// ---------------------------------------------------------------- fault-injecting wrapper
+
+type plan struct {
+	armed     bool
+	countdown int
+}
+
+func (p *plan) hit() bool {
+	if !p.armed {
+		return false
+	}
+	if p.countdown == 0 {
+		p.armed = false
+		return true
+	}
+	p.countdown--
+	return false
+}
+
+type faulty struct {
+	inner  distsys.ArchetypeResource
+	pl     *plan
+	pcFail *bool // only for the top-level wrapper
+}
+
+func (f *faulty) Abort(iface distsys.ArchetypeInterface) chan struct{} { return f.inner.Abort(iface) }
+func (f *faulty) Commit(iface distsys.ArchetypeInterface) chan struct{} {
+	return f.inner.Commit(iface)
+}
+func (f *faulty) Close() error { return f.inner.Close() }
+func (f *faulty) PreCommit(iface distsys.ArchetypeInterface) chan error {
+	ch := f.inner.PreCommit(iface)
+	if f.pcFail != nil && *f.pcFail {
+		out := make(chan error, 1)
+		go func() {
+			if ch != nil {
+				<-ch
+			}
+			out <- distsys.ErrCriticalSectionAborted
+		}()
+		return out
+	}
+	return ch
+}
+func (f *faulty) ReadValue(iface distsys.ArchetypeInterface) (tla.Value, error) {
+	if f.pl.hit() {
+		return tla.Value{}, distsys.ErrCriticalSectionAborted
+	}
+	return f.inner.ReadValue(iface)
+}
+func (f *faulty) WriteValue(iface distsys.ArchetypeInterface, v tla.Value) error {
+	if f.pl.hit() {
+		return distsys.ErrCriticalSectionAborted
+	}
+	return f.inner.WriteValue(iface, v)
+}
+func (f *faulty) Index(iface distsys.ArchetypeInterface, idx tla.Value) (distsys.ArchetypeResource, error) {
+	if f.pl.hit() {
+		return nil, distsys.ErrCriticalSectionAborted
+	}
+	sub, err := f.inner.Index(iface, idx)
+	if err != nil {
+		return nil, err
+	}
+	return &faulty{inner: sub, pl: f.pl}, nil
+}
+
+// ---------------------------------------------------------------- resources of a case
+
+type bound struct {
+	desc   resDesc
+	res    distsys.ArchetypeResource
+	pcFail *bool
+	snap   func(keys []interface{}) interface{}
+	env    func(ev []interface{})
+	close  func()
+}
+
+var sentinel = tla.MakeString("\x00full")
+
+type runner struct {
+	k            kase
+	dir          string
+	db           *badger.DB
+	bounds       map[string]*bound
+	order        []string
+	pl           *plan
+	cur          int
+	inBody       bool
+	results      []attemptResult
+	curTr        []interface{}
+	scratch      distsys.ArchetypeInterface
+	ctxIface     distsys.ArchetypeInterface
+	bodyPanicked bool
+}
+
+func decodeState(b []byte) tla.Value {
+	var v tla.Value
+	if err := gob.NewDecoder(bytes.NewBuffer(b)).Decode(&v); err != nil {
+		panic(err)
+	}
+	return v
+}
+
+func localValue(l *distsys.LocalArchetypeResource) interface{} {
+	st, err := l.GetState()
 	if err != nil {
 		panic(err)
 	}
-	defer db.Close()
-	n := 0
-	arch := distsys.MPCalArchetype{
-		Name: "A", Label: "A.l",
-		RequiredRefParams: []string{"A.x"},
-		JumpTable: distsys.MakeMPCalJumpTable(distsys.MPCalCriticalSection{Name: "A.l", Body: func(iface distsys.ArchetypeInterface) error {
-			n++
-			if n > 1 {
-				return distsys.ErrDone
-			}
-			x, err := iface.RequireArchetypeResourceRef("A.x")
-			if err != nil {
-				return err
-			}
-			return iface.Write(x, []tla.Value{tla.MakeNumber(1)}, tla.MakeNumber(42))
-		}}),
-		ProcTable: distsys.MakeMPCalProcTable(),
-		PreAmble:  func(distsys.ArchetypeInterface) {},
+	return fromTLA(decodeState(st))
+}
+
+func freeAddr() string {
+	l, err := net.Listen("tcp", "127.0.0.1:0")
+	if err != nil {
+		panic(err)
 	}
-	loc := distsys.NewLocalArchetypeResource(tla.MakeTuple(tla.MakeNumber(7), tla.MakeNumber(8)))
-	ctx := distsys.NewMPCalContext(tla.MakeString("self"), arch,
-		distsys.EnsureArchetypeRefParam("x", resources.MakePersistent("x", db, loc)))
-	fmt.Println("run:", ctx.Run())
-	fmt.Println("value:", ctx.IFace().ReadArchetypeResourceLocal)
-	st, _ := loc.GetState()
-	var v tla.Value
-	gob.NewDecoder(bytes.NewBuffer(st)).Decode(&v)
-	fmt.Println("in-memory:", v)
-	err = db.View(func(txn *badger.Txn) error {
-		item, err := txn.Get([]byte("pres-x"))
+	a := l.Addr().String()
+	l.Close()
+	return a
+}
+
+func (r *runner) dbGet(key string) (tla.Value, bool) {
+	var out tla.Value
+	found := false
+	err := r.db.View(func(txn *badger.Txn) error {
+		item, err := txn.Get([]byte(key))
+		if err == badger.ErrKeyNotFound {
+			return nil
+		}
 		if err != nil {
 			return err
 		}
 		return item.Value(func(val []byte) error {
-			var ans tla.Value
-			e := gob.NewDecoder(bytes.NewBuffer(val)).Decode(&ans)
-			fmt.Println("db:", ans, e)
-			return nil
+			found = true
+			return gob.NewDecoder(bytes.NewBuffer(val)).Decode(&out)
 		})
 	})
-	fmt.Println("db err:", err)
+	if err != nil {
+		panic(err)
+	}
+	return out, found
+}
+
+func (r *runner) makeBound(d resDesc) *bound {
+	b := &bound{desc: d}
+	uniq := fmt.Sprintf("c%d.%s", r.k.ID, d.Name)
+	switch d.Kind {
+	case "local":
+		l := distsys.NewLocalArchetypeResource(toTLA(d.Init))
+		b.res = l
+		b.snap = func([]interface{}) interface{} { return localValue(l) }
+	case "inchan", "custominchan":
+		ch := make(chan tla.Value, 1024)
+		for _, it := range d.Items {
+			ch <- toTLA(it)
+		}
+		if d.Kind == "inchan" {
+			b.res = resources.NewInputChan(ch, resources.WithInputChanReadTimeout(5*time.Millisecond))
+		} else {
+			b.res = raftkvs.NewCustomInChan(ch, 5*time.Millisecond)
+		}
+		b.snap = func([]interface{}) interface{} { return nil }
+		b.env = func(ev []interface{}) { ch <- toTLA(ev[2]) }
+	case "outchan":
+		ch := make(chan tla.Value, 4096)
+		b.res = resources.NewOutputChan(ch)
+		seen := []interface{}{}
+		b.snap = func([]interface{}) interface{} {
+			for {
+				select {
+				case v := <-ch:
+					seen = append(seen, fromTLA(v))
+					continue
+				default:
+				}
+				break
+			}
+			return tup(append([]interface{}{}, seen...)...)
+		}
+	case "singleout":
+		const capN = 8
+		ch := make(chan tla.Value, capN)
+		b.res = resources.NewSingleOutputChan(ch)
+		seen := []interface{}{}
+		drain := func() {
+			for {
+				select {
+				case v := <-ch:
+					if !v.Equal(sentinel) {
+						seen = append(seen, fromTLA(v))
+					}
+					continue
+				default:
+				}
+				break
+			}
+		}
+		full := false
+		b.snap = func([]interface{}) interface{} {
+			if !full {
+				drain()
+			} else {
+				// keep it full: take everything out, remember real values, refill
+				drain()
+				for len(ch) < capN {
+					ch <- sentinel
+				}
+			}
+			return tup(append([]interface{}{}, seen...)...)
+		}
+		b.env = func(ev []interface{}) {
+			full = ev[2].(bool)
+			drain()
+			if full {
+				for len(ch) < capN {
+					ch <- sentinel
+				}
+			}
+		}
+	case "dummy":
+		dm := resources.NewDummy(resources.WithDummyValue(toTLA(d.Init)))
+		b.res = dm
+		b.snap = func([]interface{}) interface{} { v, _ := dm.ReadValue(r.scratch); return fromTLA(v) }
+	case "filesystem":
+		dir := filepath.Join(r.dir, d.Name)
+		if err := os.MkdirAll(dir, 0o755); err != nil {
+			panic(err)
+		}
+		for _, kv := range d.Files {
+			if err := os.WriteFile(filepath.Join(dir, kv[0].(string)), []byte(kv[1].(string)), 0o644); err != nil {
+				panic(err)
+			}
+		}
+		b.res = resources.NewFileSystem(dir)
+		b.snap = func(keys []interface{}) interface{} {
+			out := []interface{}{}
+			for _, k := range keys {
+				ks, ok := k.(string)
+				if !ok {
+					out = append(out, tup())
+					continue
+				}
+				c, err := os.ReadFile(filepath.Join(dir, ks))
+				if err != nil {
+					out = append(out, tup())
+				} else {
+					out = append(out, tup(string(c)))
+				}
+			}
+			return tup(out...)
+		}
+	case "incmap_local", "hashmap_local":
+		children := map[string]*distsys.LocalArchetypeResource{}
+		if d.Kind == "incmap_local" {
+			b.res = resources.NewIncMap(func(index tla.Value) distsys.ArchetypeResource {
+				l := distsys.NewLocalArchetypeResource(toTLA(d.Init))
+				children[keyString(fromTLA(index))] = l
+				return l
+			})
+		} else {
+			hm := hashmap.New[distsys.ArchetypeResource]()
+			for _, kv := range d.Table {
+				l := distsys.NewLocalArchetypeResource(toTLA(kv[1]))
+				children[keyString(kv[0])] = l
+				hm.Set(toTLA(kv[0]), l)
+			}
+			b.res = resources.NewHashMap(hm)
+		}
+		b.snap = func(keys []interface{}) interface{} {
+			out := []interface{}{}
+			for _, k := range keys {
+				if l, ok := children[keyString(k)]; ok {
+					out = append(out, localValue(l))
+				} else if d.Kind == "incmap_local" {
+					out = append(out, d.Init)
+				} else {
+					out = append(out, nil)
+				}
+			}
+			return tup(out...)
+		}
+	case "persist":
+		l := distsys.NewLocalArchetypeResource(toTLA(d.Init))
+		b.res = resources.MakePersistent(uniq, r.db, l)
+		b.snap = func([]interface{}) interface{} {
+			dbv := tup()
+			if v, ok := r.dbGet("pres-" + uniq); ok {
+				dbv = tup(fromTLA(v))
+			}
+			return tup(localValue(l), dbv)
+		}
+	case "incmap_persist":
+		type ch struct {
+			l    *distsys.LocalArchetypeResource
+			name string
+		}
+		children := map[string]ch{}
+		b.res = resources.NewIncMap(func(index tla.Value) distsys.ArchetypeResource {
+			l := distsys.NewLocalArchetypeResource(toTLA(d.Init))
+			name := uniq + "." + keyString(fromTLA(index))
+			children[keyString(fromTLA(index))] = ch{l, name}
+			return resources.MakePersistent(name, r.db, l)
+		})
+		b.snap = func(keys []interface{}) interface{} {
+			out := []interface{}{}
+			for _, k := range keys {
+				if c, ok := children[keyString(k)]; ok {
+					dbv := tup()
+					if v, ok := r.dbGet("pres-" + c.name); ok {
+						dbv = tup(fromTLA(v))
+					}
+					out = append(out, tup(localValue(c.l), dbv))
+				} else {
+					out = append(out, tup(d.Init, tup()))
+				}
+			}
+			return tup(out...)
+		}
+	case "plog":
+		pl := raftkvs.NewPersistentLog(uniq, r.db)
+		b.res = pl
+		b.snap = func([]interface{}) interface{} {
+			v, err := pl.ReadValue(r.scratch)
+			if err != nil {
+				panic(err)
+			}
+			prefix := "raftkvs.plog." + uniq + "."
+			type ent struct {
+				i int
+				v interface{}
+			}
+			var ents []ent
+			err = r.db.View(func(txn *badger.Txn) error {
+				it := txn.NewIterator(badger.DefaultIteratorOptions)
+				defer it.Close()
+				for it.Seek([]byte(prefix)); it.ValidForPrefix([]byte(prefix)); it.Next() {
+					item := it.Item()
+					idx, err := strconv.Atoi(strings.TrimPrefix(string(item.Key()), prefix))
+					if err != nil {
+						return err
+					}
+					var val tla.Value
+					if err := item.Value(func(b []byte) error { return gob.NewDecoder(bytes.NewBuffer(b)).Decode(&val) }); err != nil {
+						return err
+					}
+					ents = append(ents, ent{idx, fromTLA(val)})
+				}
+				return nil
+			})
+			if err != nil {
+				panic(err)
+			}
+			sort.Slice(ents, func(i, j int) bool { return ents[i].i < ents[j].i })
+			dbl := []interface{}{}
+			for _, e := range ents {
+				dbl = append(dbl, tup(e.i, e.v))
+			}
+			return tup(fromTLA(v), tup(dbl...))
+		}
+	case "shared":
+		mgr := resources.NewLocalSharedManager(toTLA(d.Init), resources.WithLocalSharedResourceTimeout(5*time.Millisecond))
+		b.res = mgr.MakeLocalShared()
+		other := mgr.MakeLocalShared()
+		otherHolds := false
+		b.env = func(ev []interface{}) {
+			want := ev[2].(bool)
+			if want && !otherHolds {
+				if _, err := other.ReadValue(r.scratch); err != nil {
+					panic("other holder could not take the lock: " + err.Error())
+				}
+				otherHolds = true
+			} else if !want && otherHolds {
+				other.Abort(r.scratch)
+				otherHolds = false
+			}
+		}
+		b.snap = func([]interface{}) interface{} {
+			h := other
+			if !otherHolds {
+				h = mgr.MakeLocalShared()
+			}
+			st, err := h.GetState()
+			if err != nil {
+				panic(err)
+			}
+			return fromTLA(decodeState(st))
+		}
+		b.close = func() {
+			if otherHolds {
+				other.Abort(r.scratch)
+			}
+		}
+	case "tcp", "relaxed":
+		addr := freeAddr()
+		mk := resources.NewTCPMailboxes
+		if d.Kind == "relaxed" {
+			mk = resources.NewRelaxedMailboxes
+		}
+		opts := []resources.MailboxesOption{resources.WithMailboxesReadTimeout(40 * time.Millisecond),
+			resources.WithMailboxesWriteTimeout(500 * time.Millisecond), resources.WithMailboxesDialTimeout(500 * time.Millisecond)}
+		recvSide := mk(func(tla.Value) (resources.MailboxKind, string) { return resources.MailboxesLocal, addr }, opts...)
+		sendSide := mk(func(tla.Value) (resources.MailboxKind, string) { return resources.MailboxesRemote, addr }, opts...)
+		local, err := recvSide.Index(r.scratch, tla.MakeNumber(0)) // starts listening
+		if err != nil {
+			panic(err)
+		}
+		b.res = sendSide
+		seen := []interface{}{}
+		b.snap = func([]interface{}) interface{} {
+			for {
+				v, err := local.ReadValue(r.scratch)
+				if err != nil {
+					local.Abort(r.scratch)
+					break
+				}
+				seen = append(seen, fromTLA(v))
+				local.Commit(r.scratch)
+			}
+			return tup(tup(append([]interface{}{}, seen...)...))
+		}
+		b.close = func() { recvSide.Close() }
+	default:
+		panic("unknown resource kind " + d.Kind)
+	}
+	if b.snap == nil {
+		b.snap = func([]interface{}) interface{} { return nil }
+	}
+	return b
+}
+
+func (r *runner) snapshot() []interface{} {
+	out := []interface{}{}
+	for _, s := range r.k.Snap {
+		name := s[0].(string)
+		keys, _ := s[1].([]interface{})
+		if name == ".pc" {
+			out = append(out, fromTLA(r.ctxIface.ReadArchetypeResourceLocal(".pc")))
+			continue
+		}
+		out = append(out, r.bounds[name].snap(keys))
+	}
+	return out
+}
+
+func (r *runner) handle(iface distsys.ArchetypeInterface, name string) (distsys.ArchetypeResourceHandle, error) {
+	if name == ".pc" {
+		return iface.RequireArchetypeResource(".pc"), nil
+	}
+	return iface.RequireArchetypeResourceRef("A." + name)
+}
+
+// the body of every label: interpret the script of the current attempt
+func (r *runner) body(iface distsys.ArchetypeInterface) (err error) {
+	// what the previous attempt left behind
+	if r.cur > 0 {
+		r.results[r.cur-1].Snap = r.snapshot()
+		r.results[r.cur-1].Tr = r.curTr
+	}
+	if r.cur >= len(r.k.Attempts) {
+		return distsys.ErrDone
+	}
+	at := r.k.Attempts[r.cur]
+	r.results = append(r.results, attemptResult{Out: -1})
+	r.cur++
+	r.curTr = []interface{}{}
+	for _, b := range r.bounds {
+		*b.pcFail = false
+	}
+	for _, n := range at.PCFail {
+		*r.bounds[n].pcFail = true
+	}
+	for _, ev := range at.Env {
+		r.bounds[ev[1].(string)].env(ev)
+	}
+	r.inBody = true
+	defer func() {
+		r.inBody = false
+		r.pl.armed = false
+		if p := recover(); p != nil {
+			r.bodyPanicked = true
+			panic(p)
+		}
+	}()
+	var last tla.Value
+	for k, op := range at.Ops {
+		r.pl.armed = false
+		if at.Fault != nil && at.Fault.Op == k {
+			r.pl.armed = true
+			r.pl.countdown = at.Fault.Call
+		}
+		switch op[0].(string) {
+		case "r":
+			h, err := r.handle(iface, op[1].(string))
+			if err != nil {
+				return err
+			}
+			v, err := iface.Read(h, toTLAs(op[2].([]interface{})))
+			if err != nil {
+				return err
+			}
+			last = v
+			r.curTr = append(r.curTr, fromTLA(v))
+		case "w", "wl":
+			h, err := r.handle(iface, op[1].(string))
+			if err != nil {
+				return err
+			}
+			v := last
+			if op[0].(string) == "w" {
+				v = toTLA(op[3])
+			}
+			if err := iface.Write(h, toTLAs(op[2].([]interface{})), v); err != nil {
+				return err
+			}
+			r.curTr = append(r.curTr, nil)
+		case "goto":
+			h := iface.RequireArchetypeResource(".pc")
+			if err := iface.Write(h, nil, tla.MakeString(op[1].(string))); err != nil {
+				return err
+			}
+			r.curTr = append(r.curTr, nil)
+		case "await":
+			if !op[1].(bool) {
+				return distsys.ErrCriticalSectionAborted
+			}
+		case "assert":
+			if !op[1].(bool) {
+				return fmt.Errorf("%w: scripted", distsys.ErrAssertionFailed)
+			}
+		default:
+			panic("bad op")
+		}
+	}
+	return nil
+}
+
+type recorder struct{ r *runner }
+
+func (rec recorder) RecordEvent(ev trace.Event) {
+	r := rec.r
+	if r.cur == 0 || r.cur > len(r.results) {
+		return
+	}
+	if ev.IsAbort {
+		r.results[r.cur-1].Out = 1
+	} else {
+		r.results[r.cur-1].Out = 0
+	}
+}
+
+func runCase(k kase, db *badger.DB, root string) (res result) {
+	res.ID = k.ID
+	r := &runner{k: k, db: db, bounds: map[string]*bound{}, pl: &plan{}, dir: filepath.Join(root, fmt.Sprintf("c%d", k.ID))}
+	if err := os.MkdirAll(r.dir, 0o755); err != nil {
+		panic(err)
+	}
+	defer os.RemoveAll(r.dir)
+	r.scratch = distsys.NewMPCalContext(tla.MakeString("scratch"), distsys.MPCalArchetype{Name: "S", Label: "S.l"}).IFace()
+
+	var cfg []distsys.MPCalContextConfigFn
+	var refParams []string
+	for _, d := range k.Res {
+		b := r.makeBound(d)
+		b.pcFail = new(bool)
+		r.bounds[d.Name] = b
+		r.order = append(r.order, d.Name)
+		cfg = append(cfg, distsys.EnsureArchetypeRefParam(d.Name, &faulty{inner: b.res, pl: r.pl, pcFail: b.pcFail}))
+		refParams = append(refParams, "A."+d.Name)
+	}
+	defer func() {
+		for _, b := range r.bounds {
+			if b.close != nil {
+				b.close()
+			}
+		}
+	}()
+	cfg = append(cfg, distsys.SetTraceRecorder(recorder{r}))
+	arch := distsys.MPCalArchetype{
+		Name: "A", Label: "A.l", RequiredRefParams: refParams,
+		JumpTable: distsys.MakeMPCalJumpTable(
+			distsys.MPCalCriticalSection{Name: "A.l", Body: r.body},
+			distsys.MPCalCriticalSection{Name: "A.m", Body: r.body}),
+		ProcTable: distsys.MakeMPCalProcTable(),
+		PreAmble:  func(distsys.ArchetypeInterface) {},
+	}
+	ctx := distsys.NewMPCalContext(tla.MakeString("self"), arch, cfg...)
+	r.ctxIface = ctx.IFace()
+
+	done := make(chan struct{})
+	var runErr error
+	var panicked interface{}
+	go func() {
+		defer close(done)
+		defer func() {
+			if p := recover(); p != nil {
+				panicked = p
+			}
+		}()
+		runErr = ctx.Run()
+	}()
+	select {
+	case <-done:
+	case <-time.After(20 * time.Second):
+		res.Err = "hang"
+		res.Attempts = r.results
+		return
+	}
+	if panicked != nil || runErr != nil {
+		// the attempt in flight ended the archetype
+		if len(r.results) > 0 && r.results[len(r.results)-1].Out == -1 {
+			last := &r.results[len(r.results)-1]
+			if panicked != nil && !r.bodyPanicked {
+				last.Out = 3
+			} else {
+				last.Out = 2
+			}
+			if panicked != nil {
+				last.Err = fmt.Sprint(panicked)
+			} else {
+				last.Err = runErr.Error()
+			}
+			func() {
+				defer func() {
+					if p := recover(); p != nil {
+						last.Err += " / snapshot panicked: " + fmt.Sprint(p)
+					}
+				}()
+				last.Snap = r.snapshot()
+				last.Tr = r.curTr
+			}()
+		} else if runErr != nil {
+			res.Err = runErr.Error()
+		} else {
+			res.Err = fmt.Sprint(panicked)
+		}
+	}
+	res.Attempts = r.results
+	return
+}
+
+func main() {
+	log.SetOutput(io.Discard)
+	root := fmt.Sprintf("/var/tmp/verif-%d", os.Getpid())
+	if err := os.MkdirAll(root, 0o755); err != nil {
+		panic(err)
+	}
+	defer os.RemoveAll(root)
+	db, err := badger.Open(badger.DefaultOptions("").WithInMemory(true).WithLogger(nil))
+	if err != nil {
+		panic(err)
+	}
+	defer db.Close()
+
+	in := bufio.NewReaderSize(os.Stdin, 1<<20)
+	out := bufio.NewWriter(os.Stdout)
+	defer out.Flush()
+	dec := json.NewDecoder(in)
+	enc := json.NewEncoder(out)
+	for dec.More() {
+		var k kase
+		if err := dec.Decode(&k); err != nil {
+			fmt.Fprintln(os.Stderr, "bad case:", err)
+			os.Exit(2)
+		}
+		var res result
+		func() {
+			defer func() {
+				if p := recover(); p != nil {
+					res = result{ID: k.ID, Err: "harness panic: " + fmt.Sprint(p)}
+				}
+			}()
+			res = runCase(k, db, root)
+		}()
+		enc.Encode(res)
+		out.Flush()
+	}
 }
